@@ -220,14 +220,40 @@ pub fn save_cache(cache_path: &Path, cache: &Cache) -> std::io::Result<()> {
 pub(crate) fn resolve_scan_paths(paths: &[PathBuf], include: &[String]) -> Vec<PathBuf> {
     // CLI --include overrides paths
     if !include.is_empty() {
-        return include
-            .iter()
-            .map(|p| canonical_target(Path::new(p)))
-            .collect();
+        return drop_nested_targets(
+            include
+                .iter()
+                .map(|p| canonical_target(Path::new(p)))
+                .collect(),
+        );
     }
 
     // Use provided paths (or default ".")
-    paths.iter().map(|p| canonical_target(p)).collect()
+    drop_nested_targets(paths.iter().map(|p| canonical_target(p)).collect())
+}
+
+/// A target that lies below another target (or repeats it) adds nothing to the scan: walking
+/// both would count its files, and report its violations, twice (`check . src`, `check src src/gen`).
+fn drop_nested_targets(targets: Vec<PathBuf>) -> Vec<PathBuf> {
+    fn covers(outer: &Path, inner: &Path) -> bool {
+        if outer == Path::new(".") {
+            return inner.is_relative()
+                && !inner
+                    .components()
+                    .any(|c| matches!(c, std::path::Component::ParentDir));
+        }
+        inner.starts_with(outer)
+    }
+    let mut kept: Vec<PathBuf> = Vec::with_capacity(targets.len());
+    for (i, target) in targets.iter().enumerate() {
+        let nested = targets.iter().enumerate().any(|(j, other)| {
+            j != i && covers(other, target) && !(covers(target, other) && i < j)
+        });
+        if !nested {
+            kept.push(target.clone());
+        }
+    }
+    kept
 }
 
 /// The working directory as the kernel reports it and, when the shell reached it through a
